@@ -14,6 +14,14 @@
 using namespace via::http;
 static std::string b2s(bool b) { return b ? "1" : "0"; }
 
+struct B : via::http::authentication::basic
+{
+  typedef via::http::authentication::basic base;
+  explicit B(std::string r) : base(std::move(r)) {}
+  bool valid(StringMap const& h) const { return base::is_valid(h); }
+  std::string value() const { return base::authenticate_value(); }
+};
+
 static std::string show_params(Parameters const& p)
 {
   std::vector<std::string> l;
@@ -140,6 +148,22 @@ static std::string handle(std::string const& op, std::vector<std::string> const&
   if (op == "uripath") { request_uri u(hu::unhex(a[0])); return hu::hex(u.path()); }
   if (op == "routeparams") return show_params(get_route_parameters(hu::unhex(a[0]), hu::unhex(a[1])));
   if (op == "route") return do_route(a);
+  if (op == "b64enc") return hu::hex(authentication::base64::encode(hu::unhex(a[0])));
+  if (op == "b64dec") return hu::hex(authentication::base64::decode(hu::unhex(a[0])));
+  if (op == "b64rt") return hu::hex(authentication::base64::decode(authentication::base64::encode(hu::unhex(a[0]))));
+  if (op == "basic")
+  {
+    B auth(hu::unhex(a[1]));
+    for (auto const& up : hu::split(a[0], ';'))
+    {
+      auto p = hu::split(up, ':');
+      auth.add_user(hu::unhex(p[0]), p.size() > 1 ? hu::unhex(p[1]) : std::string());
+    }
+    StringMap hdrs;
+    if (a[2] != "NONE") hdrs["authorization"] = hu::unhex(a[2]);
+    bool ok = auth.valid(hdrs);
+    return ok ? std::string("valid=1 challenge=-") : "valid=0 challenge=" + hu::hex(auth.value());
+  }
   return "HARNESS-ERROR unknown-op " + op;
 }
 
